@@ -1,0 +1,26 @@
+//go:build verif
+// +build verif
+
+// Machine-checked contracts for this package (checked by /verif/govc).
+// Comment-only: no executable code.
+
+package types
+
+// C06: each transaction requires the signature of exactly the party the protocol assigns
+// (table written from the property statement, not from the code).
+//@ func (MsgCreateDeployment).GetSigners   // tenant
+//@   ensures len(result) == 1 && result[0] == unbech32(msg.ID.Owner)
+//@ func (MsgDepositDeployment).GetSigners   // tenant
+//@   ensures len(result) == 1 && result[0] == unbech32(msg.ID.Owner)
+//@ func (MsgUpdateDeployment).GetSigners   // tenant
+//@   ensures len(result) == 1 && result[0] == unbech32(msg.ID.Owner)
+//@ func (MsgCloseDeployment).GetSigners   // tenant
+//@   ensures len(result) == 1 && result[0] == unbech32(msg.ID.Owner)
+//@ func (MsgCloseGroup).GetSigners   // tenant
+//@   ensures len(result) == 1 && result[0] == unbech32(msg.ID.Owner)
+//@ func (MsgPauseGroup).GetSigners   // tenant
+//@   ensures len(result) == 1 && result[0] == unbech32(msg.ID.Owner)
+//@ func (MsgStartGroup).GetSigners   // tenant
+//@   ensures len(result) == 1 && result[0] == unbech32(msg.ID.Owner)
+
+//@ property C06 := (MsgCreateDeployment).GetSigners#*, (MsgDepositDeployment).GetSigners#*, (MsgUpdateDeployment).GetSigners#*, (MsgCloseDeployment).GetSigners#*, (MsgCloseGroup).GetSigners#*, (MsgPauseGroup).GetSigners#*, (MsgStartGroup).GetSigners#*
